@@ -112,7 +112,7 @@ def setup(ctx, job):
     from beyond.constants import Earth
     from beyond.frames.frames import HillFrame
 
-    st = {"mu": float(Earth.mu)}
+    st = {"mu": float(Earth.mu), "ctx": ctx}
     # one frame object per orientation (HillFrame() re-registers the global name 'Hill' each time)
     st["frames"] = {"QSW": HillFrame(orientation="QSW"), "TNW": HillFrame(orientation="TNW")}
     return st
@@ -196,6 +196,26 @@ def make_orbit(st, sma, ori, state, epoch):
     from beyond.orbits import Orbit
     from beyond.propagators.cw import ClohessyWiltshire
 
+    st["n_make"] = st.get("n_make", 0) + 1
+    if st["n_make"] % 7 == 0 and st.get("ctx") is not None and st.get("n_from_orbit", 0) < 120:
+        # the other documented way to a propagator: from the target's orbit, with the orientation asked for
+        ctx = st["ctx"]
+        st["n_from_orbit"] = st.get("n_from_orbit", 0) + 1
+        v = math.sqrt(st["mu"] / sma)
+        target = Orbit([sma, 0.0, 0.0, 0.0, v, 0.0], epoch, "cartesian", "EME2000", "Kepler")
+        try:
+            prop = ClohessyWiltshire.from_orbit(target, orientation=ori, name=f"VmonC16T{ctx.shard}x{st['n_from_orbit']}")
+        except Exception as exc:
+            ctx.violation("C16/from-orbit-raises", {"sma": sma, "orientation": ori, "exc": repr(exc)}, f"ClohessyWiltshire.from_orbit raised {exc!r}")
+            prop = ClohessyWiltshire(sma, frame=st["frames"][ori])
+        else:
+            ctx.count("propagator:from_orbit:" + ori)
+            got_ori = getattr(prop.frame, "orientation", None)
+            ctx.expect(got_ori == ori and abs(prop.sma - sma) <= 1e-6 * sma, "C16/from-orbit-ignores-the-orientation-asked-for",
+                       {"sma": sma, "asked": ori, "propagator_frame_orientation": str(got_ori), "propagator_sma": float(prop.sma),
+                        "how": "ClohessyWiltshire.from_orbit(circular target, orientation=asked)"},
+                       f"from_orbit(orientation={ori!r}) returned a propagator working in {got_ori!r} axes")
+        return Orbit(np.array(state, float), epoch, "cartesian", st["frames"][ori], prop), prop
     prop = ClohessyWiltshire(sma, frame=st["frames"][ori])
     return Orbit(np.array(state, float), epoch, "cartesian", st["frames"][ori], prop), prop
 
